@@ -2,6 +2,7 @@
 package engines
 
 import (
+	"bytes"
 	"go/ast"
 	"go/parser"
 	"go/token"
@@ -100,7 +101,9 @@ var damageTokens = strings.Fields(`func return if else for range switch case def
  x.y x[0] x[:] x[1:2] f() &T{} *T []int{} map[string]int{} func(){} -1 ^1 !x`)
 
 // Damage is one way in which source text reaching an entry point goes bad.
-var damageKinds = []string{"none", "torn-save", "spliced-overwrite", "flipped-byte", "garbage-tail", "token-insert", "token-delete", "token-dup", "invalid-utf8", "nul-byte", "long-ident", "deep-nesting", "line-shuffle", "int-literal-swap"}
+var damageKinds = []string{"none", "torn-save", "spliced-overwrite", "flipped-byte", "garbage-tail", "token-insert", "token-delete", "token-dup", "invalid-utf8", "nul-byte", "long-ident", "deep-nesting", "line-shuffle", "int-literal-swap", "clause-prefix"}
+
+var clausePrefixes = []string{"& ", "* ", "- ", "! ", "( ", "+ ", "x. ", "[]", "func ", "go ", "= ", ", ", ": ", "^", "<-", "1 + ", "a, b := ", "return ", "{ ", "} ", "package ", "import ", "var x = ", "\"s\" ", "'c' ", "// c\n/* c */ & ", "...", "&&"}
 
 // damage applies one damage kind; other is a second source for splices.
 func damage(r *core.PRNG, kind string, src, other []byte) []byte {
@@ -109,6 +112,16 @@ func damage(r *core.PRNG, kind string, src, other []byte) []byte {
 	switch kind {
 	case "none":
 		return src
+	case "clause-prefix":
+		// something in front of (or instead of the name behind) the package clause
+		pre := core.Pick(r, clausePrefixes)
+		if i := bytes.Index(src, []byte("package")); i >= 0 {
+			if r.Chance(1, 4) {
+				return append(append(cp(src[:i+7]), []byte(" "+pre)...), src[i+7:]...)
+			}
+			return append(append(cp(src[:i]), []byte(pre)...), src[i:]...)
+		}
+		return append([]byte(pre+"package main\n"), src...)
 	case "torn-save":
 		return src[:r.Intn(len(src)+1)]
 	case "spliced-overwrite":
